@@ -88,6 +88,13 @@ structure Obj where
   xrefs : List Nat
   /-- resolved targets of annotation / signature / decorator / value links (`link_to`) -/
   annrefs : List Nat
+  /-- resolved targets of the links made through the object's own `docstring_linker`: default values of
+  parameters, decorators, constant values (`_ValueFormatter`, `format_decorators`, `format_constant_value`) -/
+  valrefs : List Nat
+  /-- `ob.docstring_linker._page_object` at render time: that linker is created while the module is visited
+  (`_ValueFormatter.__init__`) and `reparent` does not refresh it: for a re-exported function this is the
+  page of the module it was defined in -/
+  ownCtx : Option Nat
   /-- `cls.baseobjects` -/
   bases : List (Option Nat)
   /-- `cls.bases` -/
@@ -337,7 +344,7 @@ inductive Row
   | table | initTable | baseTable | detail
   | sidebarTitle | sidebarItem | sidebarInherited
   | heading | classSig | knownSub | overrides | overriddenIn | baseName | baseVia
-  | docXref | annXref | extraInfo | sumCopy
+  | docXref | annXref | valXref | extraInfo | sumCopy
   | modIndexRoot | modIndex | modIndexSum
   | classIndex | classIndexSum | nameIndex | undoc | indexRoots | allDocs | allDocsSum
   deriving DecidableEq, Repr, Inhabited
@@ -379,6 +386,13 @@ def annLinks (s : Sys) (page : File) (o : Nat) : List Emit :=
   match pageObject s o with
   | none => []
   | some op => (s.ob o).annrefs.map (link .annXref page (some (pageFile s op)))
+
+/-- links of default values, decorators and constant values: `link_to` of the object's own linker, whose
+remembered page object is NOT switched (`_ValueFormatter.__repr__`, `format_decorators`) -/
+def valLinks (s : Sys) (page : File) (o : Nat) : List Emit :=
+  match (s.ob o).ownCtx with
+  | none => (s.ob o).valrefs.map (link .valXref page none)
+  | some c => (s.ob o).valrefs.map (link .valXref page (some (pageFile s c)))
 
 /-- `get_override_info(cls, member_name, page_url)` -/
 def overrideInfo (s : Sys) (pf : File) (c : Nat) (nm : Name) : List Emit :=
@@ -453,7 +467,7 @@ def pageEmits (s : Sys) (p : Nat) : List Emit :=
   ++ (methods s p).flatMap (fun c =>
         entry .detail pf none c (cssPrivate s c)
         :: ((if isCls then overrideInfo s pf p (s.ob c).name else [])
-            ++ docLinks s pf c ++ annLinks s pf c))
+            ++ docLinks s pf c ++ annLinks s pf c ++ valLinks s pf c))
   ++ sidebarEmits s pf p
 
 /-! ### summary pages -/
